@@ -38,6 +38,7 @@ type callKey struct{ idx, ei int }
 
 type callResult struct {
 	outcome string
+	got     string
 	msg     string
 }
 
@@ -117,7 +118,7 @@ func (d *driver) absorb(ce childExit, override bool) (done int, suspect *callKey
 	d.mu.Lock()
 	defer d.mu.Unlock()
 	for _, l := range ce.lines {
-		f := strings.SplitN(l, "\t", 4)
+		f := strings.SplitN(l, "\t", 5)
 		if f[0] == "D" && len(f) >= 2 {
 			if n, err := strconv.Atoi(f[1]); err == nil && n > done {
 				done = n
@@ -129,9 +130,12 @@ func (d *driver) absorb(ce childExit, override bool) (done int, suspect *callKey
 		}
 		idx, _ := strconv.Atoi(f[0])
 		ei, _ := strconv.Atoi(f[1])
-		msg := ""
-		if len(f) == 4 {
-			msg = f[3]
+		msg, got := "", ""
+		if len(f) >= 4 {
+			got = f[3]
+		}
+		if len(f) == 5 {
+			msg = f[4]
 		}
 		switch f[2] {
 		case outBug:
@@ -141,7 +145,7 @@ func (d *driver) absorb(ce childExit, override bool) (done int, suspect *callKey
 		default:
 			k := callKey{idx, ei}
 			if _, ok := d.results[k]; !ok || override {
-				d.results[k] = callResult{f[2], msg}
+				d.results[k] = callResult{f[2], got, msg}
 			}
 		}
 	}
@@ -185,7 +189,7 @@ func (d *driver) runRange(tag string, from, to int) {
 			d.mu.Lock()
 			d.crashes++
 			if ei >= 0 && ei < len(sh.Entries) {
-				d.results[callKey{idx, ei}] = callResult{outPanic, "process crashed: " + crashText(ce.stderr)}
+				d.results[callKey{idx, ei}] = callResult{outPanic, "", "process crashed: " + crashText(ce.stderr)}
 			} else {
 				d.bugs = append(d.bugs, fmt.Sprintf("child crashed outside a call at shape %d (%s): %s", idx, sh.Fam, crashText(ce.stderr)))
 			}
@@ -205,7 +209,7 @@ func (d *driver) confirmHang(tag string, idx, ei int) {
 	d.mu.Unlock()
 	if already {
 		d.mu.Lock()
-		d.results[callKey{idx, ei}] = callResult{outSkipped, ""}
+		d.results[callKey{idx, ei}] = callResult{outSkipped, "", ""}
 		d.mu.Unlock()
 		return
 	}
@@ -215,14 +219,14 @@ func (d *driver) confirmHang(tag string, idx, ei int) {
 	defer d.mu.Unlock()
 	switch {
 	case suspect != nil:
-		d.results[callKey{suspect.idx, suspect.ei}] = callResult{outHang, fmt.Sprintf("no return within %s, then (alone) within %s", firstDeadline, confirmDeadline)}
+		d.results[callKey{suspect.idx, suspect.ei}] = callResult{outHang, "", fmt.Sprintf("no return within %s, then (alone) within %s", firstDeadline, confirmDeadline)}
 		s2 := d.shapes[suspect.idx]
 		d.skipSet[s2.Fam+"|"+s2.Cls+"|"+s2.Entries[suspect.ei]] = true
 		d.writeSkip()
 	case ce.code != 0:
 		d.crashes++
 		if ce.flEntry >= 0 && ce.flEntry < len(sh.Entries) {
-			d.results[callKey{idx, ce.flEntry}] = callResult{outPanic, "process crashed: " + crashText(ce.stderr)}
+			d.results[callKey{idx, ce.flEntry}] = callResult{outPanic, "", "process crashed: " + crashText(ce.stderr)}
 		}
 	default:
 		d.slow = append(d.slow, fmt.Sprintf("%s %s %s", sh.Entries[ei], sh.Cls, string(sh.Raw)))
@@ -262,11 +266,12 @@ type runKey struct{ fam, entry, cls string }
 type event struct {
 	idx     int
 	outcome string
+	got     string
 	msg     string
 }
 
-func callEvent(sh *Shape, entry string, idx int, outcome string) tv.M {
-	return tv.M{"fam": sh.Fam, "entry": entry, "cls": sh.Cls, "id": idx, "p": sh.Raw, "outcome": outcome}
+func callEvent(sh *Shape, entry string, idx int, outcome, got string) tv.M {
+	return tv.M{"fam": sh.Fam, "entry": entry, "cls": sh.Cls, "id": idx, "p": sh.Raw, "outcome": outcome, "got": got}
 }
 
 // buildBatches groups the recorded calls into runs (fam, entry, cls) and
@@ -279,7 +284,7 @@ func buildBatches(shapes []*Shape, results map[callKey]callResult, maxLines int)
 		}
 		sh := shapes[k.idx]
 		rk := runKey{sh.Fam, sh.Entries[k.ei], sh.Cls}
-		runs[rk] = append(runs[rk], event{k.idx, r.outcome, r.msg})
+		runs[rk] = append(runs[rk], event{k.idx, r.outcome, r.got, r.msg})
 	}
 	var keys []runKey
 	for k := range runs {
@@ -307,7 +312,7 @@ func buildBatches(shapes []*Shape, results map[callKey]callResult, maxLines int)
 		}
 		cur.Start(tv.M{"fam": k.fam, "entry": k.entry, "cls": k.cls})
 		for _, e := range runs[k] {
-			cur.Ev("call", callEvent(shapes[e.idx], k.entry, e.idx, e.outcome))
+			cur.Ev("call", callEvent(shapes[e.idx], k.entry, e.idx, e.outcome, e.got))
 		}
 		cur.Ev("end", tv.M{"n": len(runs[k])})
 		curKeys = append(curKeys, k)
@@ -338,6 +343,10 @@ func TestCheck(t *testing.T) {
 	defectCh := make(chan tlc.Result, 1)
 	go func() {
 		defectCh <- tlc.Run(tlc.Opts{Dir: "InputShapes", Module: "ShapesModel", Config: "MC_defect.cfg", Workers: 2, Timeout: 5 * time.Minute, HeapMB: 2048, Args: []string{"-noGenerateSpecTE"}})
+	}()
+	defect2Ch := make(chan tlc.Result, 1)
+	go func() {
+		defect2Ch <- tlc.Run(tlc.Opts{Dir: "InputShapes", Module: "ShapesModel", Config: "MC_defect_value.cfg", Workers: 2, Timeout: 5 * time.Minute, HeapMB: 2048, Args: []string{"-noGenerateSpecTE"}})
 	}()
 	fixCh := make(chan error, 1)
 	go func() { fixCh <- generateFixtures(filepath.Join(dir, "fixtures.json")) }()
@@ -491,6 +500,7 @@ func TestCheck(t *testing.T) {
 		}
 	}
 	gotBad := map[runKey]string{}
+	gotBadAt := map[runKey]int{}
 	validated := 0
 	for bi, b := range batches {
 		rej, res := tv.Validate(tlc.Opts{Dir: "InputShapes", Module: "TraceShapes", Config: traceCfg(), Workers: 16, Timeout: ev.Pick(6*time.Minute, 30*time.Minute), HeapMB: ev.Pick(8192, 12288)}, b)
@@ -506,15 +516,36 @@ func TestCheck(t *testing.T) {
 		validated += b.Len()
 		for _, r := range rej {
 			k := index[bi][r.Trace]
-			if r.Why != outPanic && r.Why != outHang {
+			if r.Why != outPanic && r.Why != outHang && valueLaw[r.Why] == "" {
 				e.Inconclusive(fmt.Sprintf("binding: run %v rejected at event %d: %s", k, r.At, r.Why))
 				continue
 			}
 			gotBad[k] = r.Why
+			gotBadAt[k] = r.At
 		}
 	}
 	e.Set("traces_validated_against_impl", int64(validated))
 	for k, why := range gotBad {
+		if prefix := valueLaw[why]; prefix != "" {
+			// a value law of the contract: only TLC knows the expectation; the offending call is the one the run stopped at
+			i := gotBadAt[k] - 1
+			if i < 0 || i >= len(runs[k]) || runs[k][i].outcome != outOK {
+				e.Inconclusive(fmt.Sprintf("TLC rejected run %v (%s) at event %d, which is not a successful call", k, why, gotBadAt[k]))
+				continue
+			}
+			x := runs[k][i]
+			oks := 0
+			for _, y := range runs[k] {
+				if y.outcome == outOK {
+					oks++
+				}
+			}
+			sj := shapeJSON(shapes[x.idx])
+			e.Violation(prefix+":"+k.entry+":"+k.cls, fmt.Sprintf("%s: %s returned no error on a shape of class %s (family %s) and decoded %q, e.g. p=%s (%d of %d calls of the class returned no error)",
+				why, k.entry, k.cls, k.fam, x.got, string(sj), oks, len(runs[k])),
+				tv.M{"shapes": []any{tv.M{"shape": json.RawMessage(sj), "outcome": x.outcome, "got": x.got}}, "entry": k.entry, "class": k.cls, "family": k.fam})
+			continue
+		}
 		if expectBad[k] == "" {
 			e.Inconclusive(fmt.Sprintf("TLC rejected run %v (%s) but the harness recorded no such outcome", k, why))
 			continue
@@ -559,6 +590,11 @@ func TestCheck(t *testing.T) {
 	} else {
 		e.Set("defect_model_detected", true)
 	}
+	if dr := <-defect2Ch; !dr.Violation || !strings.Contains(dr.What, "NotBad") {
+		e.Inconclusive("the defect model (guard duration-range-check dropped) was not caught by TLC: " + dr.What)
+	} else {
+		e.Set("defect_value_model_detected", true)
+	}
 	e.Assume("the claim covers the shapes of the grammar only (not arbitrary byte strings); rendering of tokens to bytes is done by the harness",
 		"hang = no return within 2s and, in an isolated second run, within 25s; a crash of the child process is attributed to the call in flight",
 		"trusted: TLC, the Go runtime's recover / process exit status, crypto primitives of the standard library used to build valid samples")
@@ -592,6 +628,9 @@ func permute(in []*Shape) ([]*Shape, []byte) {
 	}
 	return out, buf.Bytes()
 }
+
+// reasons of the contract's value laws -> finding key prefix
+var valueLaw = map[string]string{"malformed input accepted": "accepted", "wrong value without an error": "wrong-value"}
 
 var misuse = map[[2]string]bool{{"aescbcaead.Seal", "nonce-wrong-size"}: true, {"cron.NewParser", "two-optionals"}: true}
 
@@ -671,7 +710,7 @@ func selfTest(e *ev.Evidence, shapes []*Shape) {
 	b := &tv.Batch{}
 	run := func(sh *Shape, entry string, outcome string, mut func(m tv.M), n int) {
 		b.Start(tv.M{"fam": sh.Fam, "entry": entry, "cls": sh.Cls})
-		m := callEvent(sh, entry, 0, outcome)
+		m := callEvent(sh, entry, 0, outcome, "")
 		if mut != nil {
 			mut(m)
 		}
@@ -685,6 +724,29 @@ func selfTest(e *ev.Evidence, shapes []*Shape) {
 	run(kw, "aeskw.Wrap", outOK, nil, 2)                                                                           // 4 rejected: incomplete
 	run(seal, "aescbcaead.Seal", outPanic, nil, 1)                                                                 // 5 accepted: misuse
 	run(kw, "aeskw.Wrap", outHang, nil, 1)                                                                         // 6 rejected: hang
+	var over, fit, ptr *Shape
+	for _, s := range shapes {
+		if s.Fam == "dur-int" && s.Cls == "duration-seconds-overflow" && over == nil {
+			over = s
+		}
+		if s.Fam == "dur-int" && s.Cls == "duration-seconds-in-range" && fit == nil && s.P["neg"] == false && len(s.P["digits"].([]any)) > 1 {
+			fit = s
+		}
+		if s.Fam == "cfg-decode" && s.Cls == "value-ptr" && s.P["target"] == "string" && s.P["out"] == "ptr" && ptr == nil {
+			ptr = s
+		}
+	}
+	if over == nil || fit == nil || ptr == nil {
+		e.Inconclusive("binding self-test: value-law sample shapes not found")
+		return
+	}
+	withGot := func(g string) func(m tv.M) { return func(m tv.M) { m["got"] = g } }
+	run(over, "metadata.DecodeMetadata", outError, nil, 1)            // 7 accepted: overflow reported
+	run(over, "metadata.DecodeMetadata", outOK, withGot("neg"), 1)    // 8 rejected: malformed input accepted
+	run(fit, "metadata.DecodeMetadata", outOK, withGot("pos"), 1)     // 9 accepted
+	run(fit, "metadata.DecodeMetadata", outOK, withGot("neg"), 1)     // 10 rejected: wrong value
+	run(ptr, "config.Decode", outOK, withGot("5"), 1)                 // 11 accepted
+	run(ptr, "config.Decode", outOK, withGot("0xc000012345"), 1)      // 12 rejected: wrong value
 	rej, res := tv.Validate(tlc.Opts{Dir: "InputShapes", Module: "TraceShapes", Config: traceCfg(), Workers: 2, Timeout: 3 * time.Minute, HeapMB: 2048}, b)
 	got := map[int]string{}
 	for _, r := range rej {
@@ -692,7 +754,10 @@ func selfTest(e *ev.Evidence, shapes []*Shape) {
 	}
 	st := tv.M{"honest_run_accepted": got[0] == "", "panic_rejected": got[1] == "panic", "foreign_shape_rejected": got[2] == "not a shape of the grammar",
 		"unlisted_entry_rejected": got[3] == "not a shape of the grammar", "incomplete_run_rejected": got[4] == "run is incomplete",
-		"documented_misuse_panic_accepted": got[5] == "", "hang_rejected": got[6] == "hang"}
+		"documented_misuse_panic_accepted": got[5] == "", "hang_rejected": got[6] == "hang",
+		"overflow_error_accepted": got[7] == "", "overflow_without_error_rejected": got[8] == "malformed input accepted",
+		"in_range_value_accepted": got[9] == "", "wrapped_sign_rejected": got[10] == "wrong value without an error",
+		"pointee_text_accepted": got[11] == "", "pointer_address_rejected": got[12] == "wrong value without an error"}
 	e.Set("binding_selftest", st)
 	ok := res.OK
 	for _, v := range st {
